@@ -132,7 +132,7 @@ def parse_template_tag(
     # 2. Block tag - With corresponding end tag, e.g. `{% endslot %}`
     # 3. Inlined tag - Without the end tag.
     last_token = attrs[-1].value if len(attrs) else None
-    if last_token and last_token.serialize() == "/":
+    if last_token and last_token.type == "simple" and last_token.serialize() == "/":
         attrs.pop()
         is_inline = True
     else:
@@ -165,6 +165,12 @@ def _extract_flags(
     found_flags = set()
     remaining_attrs = []
     for attr in attrs:
+        # Flags are bare words like `only`. Lists / dicts are never flags (and they may be nested too deep
+        # to be serialized recursively).
+        if attr.value.type != "simple":
+            remaining_attrs.append(attr)
+            continue
+
         value = attr.serialize(omit_key=True)
 
         if value not in allowed_flags:
